@@ -91,8 +91,36 @@ def run_target(case, solver=None):
     return p, out
 
 
+def huge_curvature_solve():
+    """A solve whose Newton matrices have entries of magnitude 1e160 with condition reporting on (products with the
+    transpose overflow inside the estimator); outcome irrelevant."""
+    from ..gen import Spec, SpecProblem
+
+    spec = Spec(np.diag([1e160, 1.0]), np.array([0.0, -1.0]), np.zeros((0, 2)), [], np.full(2, -np.inf), np.full(2, np.inf),
+                [], [], x0=np.zeros(2), meta={"family": "HUGE"})
+    try:
+        mon.run_solve(SpecProblem(spec), C.make_params({"iteration_limit": 8, "report_rcond": True}, spec), spec.x0, None)
+    except BaseException as ex:
+        if type(ex).__name__ == "CaseTimeout":
+            raise
+    return "huge"
+
+
+def process_state():
+    """process-global state that a solve may not leave changed: numpy's floating-point error handling, the global
+    random generators"""
+    import random
+    import zlib
+
+    st = np.random.get_state()
+    return {"numpy_errstate": dict(np.geterr()),
+            "numpy_random": (zlib.crc32(st[1].tobytes()), int(st[2])), "random": zlib.crc32(repr(random.getstate()).encode())}
+
+
 def distractor(rng, seed):
     """Some other solve with different problem/params (may raise)."""
+    if rng.random() < 0.15:
+        return huge_curvature_solve()
     fam = str(rng.choice(["QP", "NLP", "NCVX", "INF", "UNB"]))
     cfgd = C.sample(rng)
     cfgd["iteration_limit"] = int(rng.choice([5, 25]))
@@ -137,6 +165,7 @@ def run_case(case):
         ctr[k] = ctr.get(k, 0) + v
 
     defaults0 = snapshot_defaults()
+    state0 = process_state()
     p0, first = run_target(case)
     if first.construct_exc is not None:
         bump("base_unusable")
@@ -250,6 +279,14 @@ def run_case(case):
                                     "key": dict(key, kind=kind), "detail": {"position": pos + 1}})
         else:
             nt += 1
+    state1 = process_state()
+    bump("process_state_comparisons")
+    for k in state0:
+        if state0[k] != state1[k]:
+            res["viol"].append({"what": "process-global state changed across the solves of this history: %s was %s, is %s"
+                                        % (k, state0[k], state1[k]), "key": dict(key, kind="process-state", which=k)})
+            if k == "numpy_errstate":
+                np.seterr(**state0[k])   # (do not let one leak poison the remaining cases of this worker)
     defaults1 = snapshot_defaults()
     if defaults0 != defaults1:
         ch = [k for k in defaults0 if defaults0[k] != defaults1.get(k)]
@@ -269,12 +306,12 @@ def finalize(agg, tier):
         "rule": "target solves over QP/NLP/degenerate/nonconvex/unbounded specs and random configurations (30% extra "
                 "weight on filter penalties; 20% through the shared default Params object), each re-executed at 3-8 history "
                 "positions: same solver object again, fresh solver immediately, fresh solver after 1-2 unrelated solves "
-                "(other families, parameters, report_rcond, deliberate errors), fresh solver right after a solve that "
+                "(other families, parameters, report_rcond, deliberate errors, a problem with curvature 1e160 under condition reporting), fresh solver right after a solve that "
                 "raised, fresh solver for the problem object of an earlier execution (callbacks returning fresh / cached / memoised objects or fresh values on a shared sparsity structure) after that object was solved under another configuration; each worker process additionally carries the history of all earlier cases of its shard; a position "
                 "is non-trivial when it could be compared step by step and was identical; positions are distinct by "
                 "construction",
         "floors": {"histories": 100, "position_resolve_same_object": 70, "position_fresh_after_other": 120,
                    "position_after_raise": 60, "default_params_runs": 5, "position_params_object_reused": 45,
-                   "position_same_problem_object": 45},
+                   "position_same_problem_object": 45, "process_state_comparisons": 100, "distractor_huge": 15},
         "assumptions": ["bit-identical comparison of every trial record, status, counters, x, y, d, dist_factor"],
     }
